@@ -16,7 +16,13 @@ RULE = ("random reduced-form indexed grammars (2-5 non-terminals, 1-2 indices, a
         "construction (proved: non-empty exactly when a derivable word is accepted), must be non-empty when a "
         "derivable word found by bounded enumeration is accepted and empty when the grammar's language is empty. Non-trivial: >=4 rules of >=3 kinds.")
 LEVEL = "proof"
-THEOREMS = ["Pfl.IG.inter_nonEmpty",
+THEOREMS = ["Pfl.IG.isEmptyLib_iff",
+            "Pfl.IG.isEmptyLibO_iff",
+            "Pfl.IG.isEmptyLib_perm",
+            "Pfl.IG.isEmptyLibO_perm",
+            "Pfl.IG.isEmptyLibO_ord",
+            "Pfl.IG.isEmptyLib_eq_isEmpty",
+            "Pfl.IG.inter_nonEmpty",
             "Pfl.IG.derivable_iff_gen",
             "Pfl.IG.derivable_sound",
             "Pfl.IG.marks_sound",
@@ -145,6 +151,71 @@ def words_of(spec, depth=6, limit=40):
     return sorted(out)
 
 
+def lib_step_tie(rules, perm, start, drv, res):
+    """step-level tie with the faithful model of the library's own loop (Pfl/Model/IndexedMark.lean): the loop of
+    is_empty() is replayed on a fresh object by calling the real _duplication_processing / _production_process;
+    before every call the live `marked` dict (every set listed in Python's iteration order) and the rule go to
+    the model's stepLib, whose table after the call and both flags must be the implementation's"""
+    prules = [rules[i] for i in perm]
+    st, g = outcome(lambda: IndexedGrammar(Rules([mk_rule(r) for r in prules], 0), start))
+    if st != "ok" or not hasattr(g, "_duplication_processing") or not hasattr(g, "_production_process"):
+        res.tag("lib_step_unavailable")
+        return
+    lib = drv.call("ig.libRun", rules=prules, start=start)
+
+    def snap():
+        return {k: sorted(tuple(sorted(e)) for e in v) for k, v in g.marked.items()}
+    res.corr += 1
+    if snap() != {k: sorted(tuple(e) for e in v) for k, v in lib["init"]}:
+        res.corr_break("is_empty", "initial marking differs from the model", detail={"rules": prules, "impl": snap()})
+        return
+    calls = 0
+    modified = True
+    verdict = None
+    while modified and calls < 400 and verdict is None:
+        modified = False
+        for rule in g.rules.rules:
+            if rule.is_duplication():
+                rj = ["dup", rule.left_term, rule.right_terms[0], rule.right_terms[1]]
+                f = g._duplication_processing        # pylint: disable=protected-access
+            elif rule.is_production():
+                rj = ["prod", rule.left_term, rule.right_term, rule.production]
+                f = g._production_process            # pylint: disable=protected-access
+            else:
+                continue
+            before = [[k, [sorted(e) for e in list(v)]] for k, v in g.marked.items()]
+            got = outcome(lambda: f(rule), limit=3.0)
+            calls += 1
+            if got[0] != "ok":
+                res.tag("lib_step_raised")
+                return
+            m = drv.call("ig.libStep", rules=prules, start=start, rule=rj, table=before)
+            res.corr += 1
+            after = snap()
+            want = {k: sorted(tuple(e) for e in v) for k, v in m["table"]}
+            if after != want or bool(got[1][0]) != m["modified"] or bool(got[1][1]) != m["stop"]:
+                res.corr_break("is_empty", "one call of %s differs from the model of the library's loop" % f.__name__,
+                               detail={"rules": prules, "rule": rj, "before": before, "impl": [after, got[1]],
+                                       "model": [want, m["modified"], m["stop"]]})
+                return
+            modified = modified or bool(got[1][0])
+            if got[1][1]:
+                verdict = False
+                break
+    if verdict is None:
+        verdict = frozenset() not in g.marked[start]
+        # regular end: the final table is the model's (as sets), whatever the iteration orders were
+        if lib["isEmpty"] is not None and snap() != {k: sorted(tuple(e) for e in v) for k, v in lib["final"]}:
+            res.corr_break("is_empty", "final marking of the replayed loop differs from the model's",
+                           detail={"rules": prules, "impl": snap(), "model": lib["final"]})
+            return
+    res.corr += 1
+    if lib["isEmpty"] is not None and verdict != lib["isEmpty"]:
+        res.corr_break("is_empty", "verdict of the replayed loop differs from the model of the library's loop",
+                       detail={"rules": prules, "impl": verdict, "model": lib["isEmpty"]})
+    res.tag("lib_step_tie")
+
+
 def run_case(case, drv):
     import random
     res = CaseResult()
@@ -165,6 +236,8 @@ def run_case(case, drv):
     else:
         perms = [tuple(rng.sample(range(len(rules)), len(rules))) for _ in range(120 if thorough else 24)]
     heavy = set(rng.sample(range(len(perms)), min(len(perms), 24 if thorough else 6)))
+    for perm in ([perms[0]] + ([perms[len(perms) // 2]] if len(perms) > 1 else [])):
+        lib_step_tie(rules, perm, spec["start"], drv, res)
     for pi, perm in enumerate(perms):
         # the listed order is what optim 0 visits; the other heuristics are sampled
         for optim in (range(9) if pi in heavy else [0]):
